@@ -82,7 +82,7 @@ PROPS = {
                 'f64 arithmetic is uninterpreted: the 2^-50 relative error bound of inexact fallbacks is not decided',
                 'machine integers are NOT treated as mathematical: Verus checks i64/i32/u32 overflow bit-exactly',
                 'results built inside closures passed to Option::map (float arms of quotient / %) are opaque to Verus',
-                'the variadic procedures +, * and - are verified ((- x y ...) is x minus the sum of all the others; a non-number FIRST argument of - is silently skipped by the code -- (- (quote a) 1) answers 1 -- which no claimed property speaks about): for + and * an exact answer is exactly the sum / product of ALL arguments, each of which then was exact (args_sum / args_prod, step lemmas); abs / floor / ceiling / truncate / numerator / denominator hand their argument to the Number operation of the same name and return its answer; min / max / the comparison procedures are not under contract (provided trait methods `<`, `>` cannot be specified in this Verus; num_comp takes a closure)', 'divide / quotient / remainder also carry value postconditions over their two (or one) arguments in the right order; the procedures divide / quotient / remainder / expt (vm/builtin/number.rs) are verified to establish the preconditions of the Number operations they call (non-zero divisor, integer operands); pop_number / pop_integer are verified; expt also carries a value postcondition (x^e for the integer e that was passed); Number::numerator / denominator are verified for exact arguments (a stored rational is in lowest terms); Number::is_zero / to_u32 carry assumed contracts (is_zero is checked by Kani harnesses under C09); the modulo procedure is not under contract',
+                'the variadic procedures +, * and - are verified ((- x y ...) is x minus the sum of all the others; a non-number FIRST argument of - is silently skipped by the code -- (- (quote a) 1) answers 1 -- which no claimed property speaks about): for + and * an exact answer is exactly the sum / product of ALL arguments, each of which then was exact (args_sum / args_prod, step lemmas); abs / floor / ceiling / truncate / numerator / denominator hand their argument to the Number operation of the same name and return its answer; min / max / the comparison procedures are not under contract (provided trait methods `<`, `>` cannot be specified in this Verus; num_comp takes a closure)', 'divide / quotient / remainder also carry value postconditions over their two (or one) arguments in the right order; the procedures divide / quotient / remainder / expt (vm/builtin/number.rs) are verified to establish the preconditions of the Number operations they call (non-zero divisor, integer operands); pop_number / pop_integer are verified; expt also carries a value postcondition (x^e for the integer e that was passed); Number::numerator / denominator are verified for exact arguments (a stored rational is in lowest terms); Number::is_zero / to_u32 carry assumed contracts (is_zero is checked by Kani harnesses under C09); the modulo procedure is under contract for a first argument that is not a float (Number::modulo needs that: closure results in the float arms are opaque)',
             ]},
     'C03': {'groups': ['heap'], 'search': 'search_heap',
             'kani': [
